@@ -58,7 +58,7 @@ func (h *HyperLogLog) Update(data []byte) {
 	defer h.lock.Unlock()
 
 	registerIndex, count := h.getRegisterIndexAndCount(data)
-	h.registers[registerIndex] = uint8(util.Max(uint(h.registers[registerIndex]), uint(count)))
+	h.registers[registerIndex] = uint8(util.Max(uint(h.registers[registerIndex]), uint(uint8(count))))
 }
 
 // Count returns the number of distinct elements so far
